@@ -69,7 +69,7 @@ func (r Float32) MAX(a, b Float32) Scalar {
 }
 /* -------------------------------------------------------------------------- */
 func (c Float32) ABS(a Float32) Scalar {
-  if c.Sign() == -1 {
+  if a.Sign() == -1 {
     c.NEG(a)
   } else {
     c.SET(a)
